@@ -127,3 +127,5 @@ def run(chk):
     from . import guardrules as _gr
     nd2_ = _gr.check_decisions(chk, c, 'C17-D2', lambda fq_: fq_.startswith(('__init__.set_default_v', '__init__.get_default_v', '__init__.check_v', '__init__.load_', '__init__.find_', '__init__._discover', 'parser._get_')))
     chk.floor('functions compared with the decision reference (C17-D2)', nd2_, 1)
+    from . import memo as _memo
+    _memo.wire(chk, c, 'C17-M', None, 'the package')
